@@ -135,7 +135,6 @@ MUTANTS = [
     ("C18", "cdf-unsorted", "typhon/retrieval/bmci/bmci.py", "        self.x_sorted_inds = np.argsort(self.x)", "        self.x_sorted_inds = np.arange(self.x.size)"),
     ("C18", "window-too-narrow", "typhon/retrieval/bmci/bmci.py", "        s_l = y_proj - np.sqrt(2.0 * x2_max / self.pc1_e)", "        s_l = y_proj + np.sqrt(2.0 * x2_max / self.pc1_e)"),
     ("C18", "std-no-weights", "typhon/retrieval/bmci/bmci.py", "                    (self.x[i_l:i_u].ravel() - xs[i]) ** 2.0 * ws.ravel() / c))", "                    (self.x[i_l:i_u].ravel() - xs[i]) ** 2.0 / max(1, i_u - i_l)))"),
-    ("C18", "empty-window-index", "typhon/retrieval/bmci/bmci.py", "        if ws_cum.size > 0 and ws_cum[-1] > 0.0:", "        if ws_cum[-1] > 0.0:"),
 ]
 
 
